@@ -79,6 +79,42 @@ VCS_SUBCOMMANDS_BY_NAME = {
 Env = typ.Dict[str, str]
 
 
+GIT_PATH_ESCAPES = {
+    'a': 7, 'b': 8, 't': 9, 'n': 10, 'v': 11, 'f': 12, 'r': 13, '"': 34, '\\': 92,
+}
+
+
+def _unquote_git_path(path: str) -> str:
+    """Undo the quoting of unusual paths (blanks, non-ascii, ...) in git porcelain output.
+
+    >>> _unquote_git_path('src/a.txt')
+    'src/a.txt'
+    >>> _unquote_git_path('"a b.txt"')
+    'a b.txt'
+    """
+    if not (len(path) >= 2 and path.startswith('"') and path.endswith('"')):
+        return path
+
+    raw = bytearray()
+    idx = 1
+    end = len(path) - 1
+    while idx < end:
+        char = path[idx]
+        if char != "\\" or idx + 1 >= end:
+            raw.extend(char.encode("utf-8"))
+            idx += 1
+        elif path[idx + 1] in GIT_PATH_ESCAPES:
+            raw.append(GIT_PATH_ESCAPES[path[idx + 1]])
+            idx += 2
+        elif re.match(r"[0-3][0-7][0-7]", path[idx + 1 : idx + 4]):
+            raw.append(int(path[idx + 1 : idx + 4], 8))
+            idx += 4
+        else:
+            raw.extend(char.encode("utf-8"))
+            idx += 1
+    return raw.decode("utf-8", errors="replace")
+
+
 class VCSAPI:
     """Absraction for git and mercurial."""
 
@@ -157,7 +193,8 @@ class VCSAPI:
                 if status[:1] in ("R", "C") and " -> " in filepath:
                     # renamed/copied: "R  <old path> -> <new path>"
                     old_filepath, filepath = filepath.split(" -> ", 1)
-                    status_items.append((status, old_filepath))
+                    status_items.append((status, _unquote_git_path(old_filepath)))
+                filepath = _unquote_git_path(filepath)
             else:
                 status, filepath = line.split(" ", 1)
             if status == "??" and filepath.endswith("/"):
